@@ -117,6 +117,29 @@ class Check:
                                                               p.stdout[-3000:], p.stderr[-3000:]))
         return p
 
+    def run_vh_crashcheck(self, args, sig, timeout=600):
+        """Run a driver whose scenario can take the whole PROCESS down when the library is broken (Go runtime
+        'fatal error': concurrent map writes, stack overflow, ... cannot be recovered like a panic).  Such a death
+        is the library's observable behaviour: it is reported as a violation with signature `sig`.  Any other
+        failure of the driver is machinery trouble (Broken)."""
+        env = dict(os.environ)
+        env.update(GOENV)
+        try:
+            p = subprocess.run([self.vh] + [str(a) for a in args], capture_output=True, text=True, timeout=timeout,
+                               env=env, cwd=self.scratch)
+        except subprocess.TimeoutExpired:
+            self.report_failure(sig + " (the scenario did not finish within %d s)" % timeout, {"args": [str(a) for a in args]})
+            return None
+        if p.returncode == 0:
+            return p
+        err = p.stderr or ""
+        fatal = [l for l in err.splitlines() if l.startswith("fatal error:") or "stack overflow" in l or l.startswith("panic:")
+                 or "SIGSEGV" in l or "SIGBUS" in l]
+        if fatal or p.returncode < 0:
+            self.report_failure(sig, {"args": [str(a) for a in args], "exit": p.returncode, "stderr_head": fatal[:3] or err.splitlines()[:3]})
+            return None
+        raise Broken("vh %s failed (exit %d):\n%s\n%s" % (" ".join(map(str, args)), p.returncode, p.stdout[-2000:], err[-2000:]))
+
     # ------------------------------------------------------------------ spec
     def specdir(self, comp):
         """Scratch copy of spec/common + spec/<comp> (TLC litters its directory)."""
